@@ -1675,6 +1675,10 @@ package raft
 //@ func raftpb.ConfChangeI.AsV2
 //@   modifies alloc F$raftpb.ConfChangeV2, alloc F$raftpb.ConfChangeSingle, alloc C$uint64, alloc C$raftpb.ConfChangeType, alloc E$*raftpb.ConfChangeSingle
 //@   ensures result != nil
+//@ -- interface contract (assumed; both implementations are one line: `return c, true` / `return nil, false`): no effect
+//@ func raftpb.ConfChangeI.AsV1
+//@   pure
+//@   ensures result1 ==> result0 != nil
 //@ func raft.DescribeConfChange
 //@   trusted
 //@   pure
@@ -2141,3 +2145,11 @@ package raft
 //@   -- a follower that knows a leader has a term (the leader stamped the message it learnt it from); not part of wf_raft yet
 //@   requires #known-leader-has-term [C14] rn.raft.lead != 0 ==> rn.raft.Term >= 1
 //@   ensures #wf wf_rawnode(rn) && hs_monotone(rn.raft) && rn.raft == old(rn.raft)
+
+//@ -- ProposeConfChange: confChangeToMsg and pb.MarshalConfChange are inlined (proto.Marshal and ConfChangeI.AsV1/AsV2 by their assumed
+//@ -- contracts); the well-formedness of the stepped MsgProp is proved, not assumed, as for Propose.
+//@ func raft.RawNode.ProposeConfChange [C14 C20 C10]
+//@   requires api_ready(rn)
+//@   requires #known-leader-has-term [C14] rn.raft.lead != 0 ==> rn.raft.Term >= 1
+//@   ensures #wf wf_rawnode(rn) && hs_monotone(rn.raft) && rn.raft == old(rn.raft)
+//@   ensures #keeps-hardstate [C20 C10] rn.raft.Term == old(rn.raft.Term) && rn.raft.Vote == old(rn.raft.Vote) && rn.raft.state == old(rn.raft.state)
